@@ -92,6 +92,7 @@ def jobs(tier):
         mk('C08', 'spawned_late_child', S.spawned_late_child(), witnesses=W),
         [Job('C08', 's1.two_loops', t_two_loops, {}, witnesses=W)],
         mk('C08', 'read_after_completion/par', S.read_after_completion(parallel=True), witnesses=W),
+        mk('C08', 'par_child_timeout', S.par_child_timeout(), witnesses=W),
         mk('C08', 'fw/chain2', S.forward_chain(2, topo='chain'), witnesses=W),
         mk('C08', 'fw/chain2/poll', S.forward_chain(2, topo='chain', poll=True), witnesses=W),
         mk('C08', 'fw/chain3', S.forward_chain(3, topo='chain'), witnesses=W),
@@ -100,6 +101,7 @@ def jobs(tier):
     if tier == 'thorough':
         out += [
             mk('C08', 'fw/cycle3', S.forward_chain(3, topo='cycle'), witnesses=W, max_paths=6000),
+            mk('C08', 'par_child_timeout/poll', S.par_child_timeout(poll=True), witnesses=W, max_paths=6000),
             mk('C08', 'fw/diamond', S.forward_chain(4, topo='diamond'), witnesses=W, max_paths=6000),
             mk('C08', 'fw/chain3/CBA', S.forward_chain(3, topo='chain', order=['C', 'B', 'A']), witnesses=W, max_paths=6000),
             mk('C08', 'child/await/k1', S.child('await', k=1), witnesses=W, max_paths=6000),
